@@ -42,11 +42,14 @@ Leave the worktree with your change applied and the demo file in place. In your 
 for pid, d in props.items():
     wt = '%s/%s' % (rd, pid); out = '%s/%s.out' % (rd, pid)
     avoid = ''
-    mp = '%s/seeded/%s/meta.json' % (root, pid)
-    if suffix and os.path.exists(mp):
-        m = json.load(open(mp))
-        avoid = ('\nAnother developer has already tried this exercise with this change: "%s" - choose a clearly different mechanism '
-                 '(a different function, and if the property has several clauses, preferably a different clause of it).' % m['summary'].replace('\n', ' '))
+    prev = []
+    for sfx in ['', 'b', 'c', 'd']:
+        mp = '%s/seeded/%s%s/meta.json' % (root, pid, sfx)
+        if suffix and sfx < suffix and os.path.exists(mp):
+            prev.append(json.load(open(mp))['summary'].replace('\n', ' '))
+    if prev:
+        avoid = ('\nOther developers have already tried this exercise with these changes: ' + ' / '.join('"%s"' % x for x in prev) +
+                 ' - choose a clearly different mechanism (a different function, and if the property has several clauses, preferably a clause none of them touched).')
     open('%s/%s.txt' % (pd, pid), 'w').write(tmpl.format(wt=wt, out=out, id=pid, idl=pid.lower(), title=d['title'], statement=d['statement'],
          quant=d['quantifier']['text'], files=', '.join(d['anchors'].get('files', [])), why=d['why_tests_cant'], avoid=avoid))
 print('written', len(props))
